@@ -51,10 +51,14 @@ def showTok (t : Tok) : String :=
   (match t.typ with | .openTag => "O" | .closeTag => "C" | .dataItem => "D" | .list => "L" | .listName => "N") ++ ":" ++ encName t.value
 
 open Model.Sfdl in
-partial def showObj : Obj → String
-  | .item n => "(item " ++ encName n ++ ")"
-  | .array nm e => "(arr " ++ encName nm ++ " " ++ showObj e ++ ")"
-  | .record nm fs => "(rec " ++ encName nm ++ String.join (fs.map (fun (k, v) => " (" ++ encName k ++ " " ++ showObj v ++ ")")) ++ ")"
+/-- dump; creating the element of an array whose descriptor is broken raises (first one in traversal order) -/
+partial def showObj : Obj → Except Err String
+  | .item n => .ok ("(item " ++ encName n ++ ")")
+  | .array nm e => do pure ("(arr " ++ encName nm ++ " " ++ (← showObj e) ++ ")")
+  | .record nm fs => do
+    let parts ← fs.mapM (fun (k, v) => do pure (" (" ++ encName k ++ " " ++ (← showObj v) ++ ")"))
+    pure ("(rec " ++ encName nm ++ String.join parts ++ ")")
+  | .bad e => .error e
 
 open Spec.Sfdl in
 partial def showStruct : Struct → String
@@ -124,7 +128,7 @@ def handle : List String → String
     | some t => answer (fun ts => " ".intercalate (ts.map showTok)) (Model.Sfdl.tokenize t)
     | none => "bad-op"
   | ["parse", hx] => match textOfHex hx with
-    | some t => answer showObj (Model.Sfdl.parse t)
+    | some t => answer id (Model.Sfdl.parse t >>= showObj)
     | none => "bad-op"
   | "spec" :: ws => match parseDef ws with
     | some (d, []) =>
